@@ -82,6 +82,16 @@ def check_inputs(ctx, datas):
         reqs += [f'crc16 {h}', f'crc32c {h} 0', f'crc32c {h} 1']
     outs = ctx.model.run(reqs) if ctx.driver_ok else None
     for k, d in enumerate(datas):
+        if k % 37 == 5:
+            # a call that is REJECTED part-way through its input (an item that is no byte) must leave nothing behind:
+            # the checksums computed afterwards are functions of their own argument only
+            for bad in ([d[0] if d else 1, 2, 300], [7, 'a'], (5, None), [1, 2, 3, -70000], [0x31, 256]):
+                for f in (crc16, lambda x: crc32c(x, 'little'), lambda x: crc32c(x, 'big')):
+                    try:
+                        f(bad)
+                    except Exception:
+                        pass
+            ctx.count('rejected-input-before')
         got = [_call(crc16, d), _call(crc32c, d, 'little'), _call(crc32c, d, 'big')]
         want = [bit16(d), bit32(d, 'little'), bit32(d, 'big')]
         names = ['crc16', 'crc32c-little', 'crc32c-big']
